@@ -355,8 +355,43 @@ def e9(x):
     return 2000000000 if x != x else int(min(abs(x) * 1e9, 2e9))
 
 
+def plain_history(b: dict) -> dict:
+    """a history of solves on ONE stochastic solver object with the solver's own default sampler (sampler=None), over
+    different data tensors; each solve is compared with the same solve on a fresh object under the same random stream"""
+    import c05
+    evs = []
+    s = b["solver"]
+    opt = make_solver(s)
+    for k, sv in enumerate(b["solves"]):
+        p = sv["problem"]
+        try:
+            outs = []
+            for o in (opt, make_solver(s)):
+                X, dense, fh, gh, lb, init = problem(p)
+                sx, si = c05.snapshot(X), c05.snapshot(init)
+                np.random.seed(sv["seed"])
+                logging.disable(logging.CRITICAL)
+                try:
+                    with warnings.catch_warnings(), np.errstate(all="ignore"):
+                        warnings.simplefilter("ignore")
+                        M, info = o.solve(init, X, fh, gh, lb)
+                finally:
+                    logging.disable(logging.NOTSET)
+                outs.append((M, info, c05.snapshot(X) == sx, c05.snapshot(init) == si, lb))
+            (M, info, xo, io_, lb), (Mf, infof, _, _, _) = outs
+            obs = {"st": "ok", "rank_and_shape_ok": bool(M.ncomponents == p["rank"] and tuple(M.shape) == tuple(p["shape"])),
+                   "bounds_ok": bool(all(np.all(f >= lb) for f in M.factor_matrices)),
+                   "trace_len": int(np.asarray(info["f_est_trace"]).size), "max_iters": int(s["max_iters"]),
+                   "data_untouched": bool(xo), "init_untouched": bool(io_),
+                   "same_as_fresh": fingerprint(M, info) == fingerprint(Mf, infof)}
+        except Exception as e:
+            obs = {"st": "raised:" + type(e).__name__ + ":" + str(e)[:100]}
+        evs.append({"op": "plain", "args": {"solve": k, "alg": s["alg"]}, "ret": obs})
+    return {"init": {}, "b": b, "ev": evs}
+
+
 def replay_solver(b: dict) -> dict:
-    tr = lbfgsb_history(b) if b.get("lbfgsb") else solver_history(b)
+    tr = lbfgsb_history(b) if b.get("lbfgsb") else (plain_history(b) if b.get("plain") else solver_history(b))
     return {"traces": [tr], "divs": [{"site": "s", "why": "candidate", "trace_index": 0, "event": i + 1} for i in range(len(tr["ev"]))],
             "events": len(tr["ev"]), "nontrivial": [json.dumps(b, sort_keys=True)]}
 
@@ -420,6 +455,15 @@ def histories(tier: str, sd: int) -> List[dict]:
                         seq = rr.choice([[pa, pa], [pa, pb, pa], [pb, pa]])
                         out.append({"solver": solver, "solves": [{"problem": q, "seed": sd + 100 + j} for j, q in enumerate(seq)]})
                         i += 1
+    # the solver's own default sampler on one object over different data (other size, other order, other nonzero pattern)
+    for alg in ("sgd", "adam", "adagrad"):
+        for sparse in (False, True):
+            for loss in ("gaussian", "poisson"):
+                base = {"loss": loss, "sparse": sparse, "dseed": sd + 1}
+                pa, pb, pc = dict(base, **P1), dict(base, **P2), dict(base, dseed=sd + 2, **P1)
+                solver = {"alg": alg, "rate": 1e-2, "decay": 0.1, "max_fails": 1, "epoch_iters": 2, "max_iters": 2, "tol": "none"}
+                out.append({"plain": True, "solver": solver,
+                            "solves": [{"problem": q, "seed": sd + 200 + j} for j, q in enumerate([pa, pb, pc, pa])]})
     for maxiter in (1, 3, 50):
         for cb in (False, True):
             for loss in ("gaussian", "poisson"):
